@@ -18,3 +18,257 @@ EXPLANATION = 'bounded run-time contracts (icontract) on dmrg_cross / function_i
 
 def bounded_checks(tier, seed, repo):
     return run_rmode('C14', tier, seed, repo)
+
+
+# ------------------------------------------------------------------------------------------------
+# deductive part: index contracts
+# ------------------------------------------------------------------------------------------------
+import z3
+from ttvc import harness as H, tensors as T, interp as I
+from ttvc.tensors import STensor, is_sym, to_int
+from ttvc.terms import fresh_int
+
+
+def interp_mod(ex):
+    return ex.module('torchtt.interpolate')
+
+
+def int_vector_in_range(ob, name, v, length, hi):
+    """v is a 1-D int64 tensor of the given length whose every entry lies in [0, hi)"""
+    ex = ob.ex
+    if not isinstance(v, STensor) or v.ndim != 1 or v.dtype != 'int64':
+        ob.fail(name + '.type', 'post', 'not a 1-D int64 tensor: %r' % (getattr(v, 'dtype', None),))
+        return
+    ob.ok(name + '.type')
+    ob.prove(name + '.length', to_int(v.shape[0]) == length, 'shape')
+    if v.ival is None:
+        ob.undecided(name + '.range', 'post', 'integer values not tracked')
+        return
+    j = tuple(fresh_int('j') for _ in v.axes[0].factors)
+    bounds = [z3.And(x >= 0, x < to_int(f.size)) for x, f in zip(j, v.axes[0].factors)]
+    e = T.int_entry(v, [j])
+    ob.prove(name + '.range', z3.Implies(z3.And(*bounds), z3.And(e >= 0, e < hi)))
+
+
+def maxvol_loop_invariant(ex, fr):
+    """pivot-improvement loop of _maxvol(M), M of shape m x n with n < m: `idx` stays a vector of n row numbers of M and `Mat` an
+    m x n float matrix that is not (a view of) M"""
+    from ttvc import absval as AV
+    M = fr.locals['M']
+    m, n = M.shape
+    return {'idx': AV.IntVector(n, 0, m), 'Mat': AV.FloatTensor([m, n], M.dtype)}
+
+
+LOOP_CONTRACTS = {('torchtt.interpolate._maxvol', 0): maxvol_loop_invariant}
+
+
+@scenario('C14', 'maxvol.contract', 'torchtt.interpolate._maxvol', quick=[dict()], replay='maxvol', max_paths=400)
+def maxvol_contract(ob):
+    """_maxvol(M) for a float matrix M (m x n, m, n >= 1) returns a 1-D int64 tensor of length min(m, n) whose entries are row
+    indices of M (in [0, m)); M itself is not written.  The pivot-improvement loop is verified with a loop invariant."""
+    ex = ob.ex
+    m, n = H.sym_sizes(ex, 'm', 1)[0], H.sym_sizes(ex, 'n', 1)[0]
+    M = T.opaque_tensor([m, n], 'float64', 'M')
+    ex.register_arg(M, 'M')
+    ob.describe('m', m); ob.describe('n', n)
+    ex.loop_contracts.update(LOOP_CONTRACTS)
+    r = ex.call(interp_mod(ex).env['_maxvol'], [M])
+    int_vector_in_range(ob, 'rows', r, z3.If(n >= m, m, n), m)
+    ob.frame()
+
+
+def maxvol_hook(ex, f, args, kwargs):
+    """modular use of the contract of _maxvol proved by maxvol.contract"""
+    from ttvc import absval as AV, optable
+    M = args[0]
+    if not isinstance(M, STensor) or M.ndim != 2:
+        return NotImplemented
+    m, n = M.shape
+    ex.events.append(('maxvol', M))
+    return AV.IntVector(optable._min_size(ex, m, n), 0, m).fresh(ex, 'maxvol')
+
+
+def index_matrix_ok(ob, name, E, N, rows=None):
+    """E is an int64 matrix with len(N) columns, column k within [0, N[k])"""
+    d = len(N)
+    if not isinstance(E, STensor) or E.ndim != 2 or E.dtype != 'int64':
+        ob.fail(name + '.type', 'post', 'the argument handed to the user function is not a 2-D int64 tensor: %r' % (E,))
+        return False
+    ob.ok(name + '.type')
+    ob.prove(name + '.columns', to_int(E.shape[1]) == d, 'shape')
+    if not T.known_eq(E.shape[1], d):
+        return False
+    if E.ival is None:
+        ob.undecided(name + '.range', 'post', 'integer values not tracked')
+        return False
+    i = tuple(fresh_int('row') for _ in E.axes[0].factors)
+    bounds = [z3.And(x >= 0, x < to_int(f.size)) for x, f in zip(i, E.axes[0].factors)]
+    for k in range(d):
+        e = T.int_entry(E, [i, (k,)])
+        ob.prove('%s.col%d_in_range' % (name, k), z3.Implies(z3.And(*bounds), z3.And(e >= 0, e < to_int(N[k]))))
+    return True
+
+
+def supercore_layout(ob, name, E, N):
+    """the rows of E enumerate, in C order, (left index set) x [0,N[k]) x [0,N[k+1]) x (right index set) for some k: column k is the
+    first free mode index, column k+1 the second, the columns left of k depend on the left set position only and the columns right
+    of k+1 on the right set position only -- so that reshape(f(E), [r_k, N_k, N_k+1, r_k+2]) is the sampled supercore"""
+    d = len(N)
+    fac = E.axes[0].factors
+    if not (2 <= len(fac) <= 4) or E.ival is None:
+        ob.undecided(name + '.layout', 'post', 'row axis of the index matrix is not a product of 2..4 factors (%d)' % len(fac))
+        return
+    pc = ob.ex.pc
+    i = tuple(fresh_int('r') for _ in fac)
+    i2 = tuple(fresh_int('s') for _ in fac)
+    bounds = [z3.And(x >= 0, x < to_int(f.size)) for x, f in zip(i + i2, fac + fac)]
+    unknown = False
+    for k in range(d - 1):
+        for p in (0, 1):          # position of the N[k] factor (a unit-size left / right index set contributes no factor)
+            q = len(fac) - p - 2
+            if q not in (0, 1):
+                continue
+            if not (T.known_eq(fac[p].size, N[k]) and T.known_eq(fac[p + 1].size, N[k + 1])):
+                continue
+            conds = [T.int_entry(E, [i, (k,)]) == i[p], T.int_entry(E, [i, (k + 1,)]) == i[p + 1]]
+            # two rows with the same left-set position (resp. right-set position) and arbitrary other positions
+            il = ((i[0],) + i2[1:]) if p == 1 else i2
+            ir = (i2[:-1] + (i[-1],)) if q == 1 else i2
+            for j in range(k):
+                conds.append(T.int_entry(E, [i, (j,)]) == T.int_entry(E, [il, (j,)]))
+            for j in range(k + 2, d):
+                conds.append(T.int_entry(E, [i, (j,)]) == T.int_entry(E, [ir, (j,)]))
+            res = [ob.decide_under(c, bounds) for c in conds]
+            if all(r == 'proved' for r in res):
+                ob.ok(name + '.layout')
+                return
+            unknown = unknown or 'unknown' in res
+    r, m = pc.model()
+    ob._add(name + '.layout', 'post', 'failed' if (r == z3.sat and not unknown) else 'undecided',
+            {'model': m, 'cond': 'no mode pair (k, k+1) for which the rows of the index matrix are the C-order product left set x N[k] x N[k+1] x right set (row factors %s)' % ([f.size for f in fac],)})
+
+
+def grid_cross(ds_nswp):
+    return [dict(d=d, nswp=n, start=s) for (d, n) in ds_nswp for s in (False, True)]
+
+
+@scenario('C14', 'dmrg_cross.index_contract', ['torchtt.interpolate.dmrg_cross', 'torchtt.interpolate._maxvol'],
+          quick=grid_cross([(2, 1)]) + [dict(d=3, nswp=1, start=False)], thorough=grid_cross([(2, 1), (2, 2), (3, 1)]) + [dict(d=4, nswp=1, start=False)],
+          replay='cross_index', max_paths=6000)
+def cross_index(ob, d, nswp, start):
+    """every call of the user function by dmrg_cross(f, N, ...) passes an M x d int64 matrix whose column k lies in [0, N[k]) and
+    whose row layout is the C-order product (left index set) x [0,N[k]) x [0,N[k+1]) x (right index set); the result is a
+    well-formed TT of shape N; the starting tensor is not written.  _maxvol and rank_chop are used through their contracts."""
+    from . import hooks
+    ex = ob.ex
+    hooks.install(ex)
+    ex.call_hooks['torchtt.interpolate._maxvol'] = maxvol_hook
+    N = H.sym_sizes(ex, 'N', d)
+    calls = []
+
+    def user_function(ex_, args, kwargs):
+        E = args[0]
+        k = len(calls)
+        calls.append(E)
+        if index_matrix_ok(ob, 'call%d' % k, E, N):
+            supercore_layout(ob, 'call%d' % k, E, N)
+        out = T.opaque_with_axes([E.axes[0]], 'float64', 'fvals')
+        out._val = None
+        return out
+    kw = {'eps': SymScalar(z3.Real('eps'), 'float', 'float'), 'nswp': nswp}
+    ex.assume(z3.Real('eps') > 0)
+    ex.assume(z3.Real('eps') < 1)
+    kick = z3.Int('kick')
+    ex.assume(kick >= 1)
+    kw['kick'] = kick
+    if start:
+        x0 = ob.tt('x0', d, N=N, dtype='float64')
+        kw['x_start'] = x0
+    ob.describe('N', N); ob.describe('nswp', nswp); ob.describe('kick', kick)
+    r = ex.call(interp_mod(ex).env['dmrg_cross'], [I.HostFn(user_function), list(N)], kw)
+    ob.prove('function_was_called', len(calls) >= 1)
+    ob.wf(r)
+    all_eq(ob, 'N', fields(ob, r)['N'], N)
+    ob.frame()
+
+
+def _witness_index_matrices(ex, d):
+    """integer d-column matrices among the local variables of the function that is calling the user function"""
+    fr = ex.frames[-1] if ex.frames else None
+    out = []
+    if fr is not None:
+        for name, v in fr.locals.items():
+            if isinstance(v, STensor) and v.ndim == 2 and v.dtype == 'int64' and v.ival is not None and T.known_eq(v.shape[1], d):
+                out.append((name, v))
+    return out
+
+
+def grid_fi(ds_nswp):
+    return [dict(d=d, nswp=n, multi=m, start=s) for (d, n) in ds_nswp for m in (0, 2) for s in (False, True)]
+
+
+@scenario('C14', 'function_interpolate.values_contract', ['torchtt.interpolate.function_interpolate', 'torchtt.interpolate._maxvol'],
+          quick=grid_fi([(2, 1)]) + [dict(d=3, nswp=1, multi=0, start=False)], thorough=grid_fi([(2, 1), (2, 2), (3, 1)]), replay='fi_values', max_paths=6000)
+def fi_values(ob, d, nswp, multi, start):
+    """every call of the user function by function_interpolate(f, x, ...) passes values that are entries of the argument tensor(s):
+    there is an index matrix E (M x d, column k within [0, N[k]), C-order supercore layout) with  arg[row] = x[E[row, :]]
+    (one tensor) resp. arg[row, j] = x_j[E[row, :]] (list of tensors); result well formed of shape N; operands not written."""
+    from . import hooks
+    ex = ob.ex
+    hooks.install(ex)
+    ex.call_hooks['torchtt.interpolate._maxvol'] = maxvol_hook
+    nx = multi or 1
+    xs = []
+    for j in range(nx):
+        xs.append(ob.tt('x%d' % j, d, N=(xs[0].N_ if xs else None), dtype='float64'))
+    N = xs[0].N_
+    calls = []
+
+    def user_function(ex_, args, kwargs):
+        A = args[0]
+        k = len(calls)
+        calls.append(A)
+        name = 'call%d' % k
+        want_ndim = 2 if multi else 1
+        if not isinstance(A, STensor) or A.ndim != want_ndim or A.dtype != 'float64':
+            ob.fail(name + '.type', 'post', 'argument of the user function is not a %d-D float64 tensor: %r' % (want_ndim, A))
+            raise T.PyRaise('TypeError', 'user function: bad argument', origin='user')
+        ob.ok(name + '.type')
+        if multi:
+            ob.prove(name + '.columns', to_int(A.shape[1]) == nx, 'shape')
+        wit = _witness_index_matrices(ex_, d)
+        done = False
+        for wname, E in wit:
+            if len(E.axes[0].factors) != len(A.axes[0].factors):
+                continue
+            if not index_matrix_ok(ob, name, E, N):
+                continue
+            supercore_layout(ob, name, E, N)
+            row = tuple(fresh_int('row') for _ in A.axes[0].factors)
+            for x_, fct in zip(row, A.axes[0].factors):
+                ex_.pc.add(z3.And(x_ >= 0, x_ < to_int(fct.size)))
+            ent = [T.int_entry(E, [row, (c,)]) for c in range(d)]
+            for j in range(nx):
+                got = A.at([row, (j,)]) if multi else A.at([row])
+                ob.prove_eq('%s.value_is_entry_of_x%d' % (name, j), got, H.tt_val(ex_, xs[j], ent))
+            done = True
+            break
+        if not done:
+            ob.undecided(name + '.witness', 'post', 'no integer index matrix with %d columns among the locals of the caller (%s)' % (d, [w for w, _ in wit]))
+        out = T.opaque_with_axes([A.axes[0]], 'float64', 'fvals')
+        out._val = None
+        return out
+    kw = {'eps': SymScalar(z3.Real('eps'), 'float', 'float'), 'nswp': nswp}
+    ex.assume(z3.Real('eps') > 0)
+    ex.assume(z3.Real('eps') < 1)
+    kick = z3.Int('kick')
+    ex.assume(kick >= 1)
+    kw['kick'] = kick
+    if start:
+        kw['start_tens'] = ob.tt('x_start', d, N=N, dtype='float64')
+    ob.describe('N', N); ob.describe('nswp', nswp); ob.describe('kick', kick)
+    r = ex.call(interp_mod(ex).env['function_interpolate'], [I.HostFn(user_function), xs if multi else xs[0]], kw)
+    ob.prove('function_was_called', len(calls) >= 1)
+    ob.wf(r)
+    all_eq(ob, 'N', fields(ob, r)['N'], N)
+    ob.frame()
